@@ -6,7 +6,8 @@ package confirm
 // code). Comment-only: no code; visible only with the build tag "verif".
 //
 //@ func (*Confirm).Get
-//@   property C05 C18
+//@   property C05 C18 C17
+//@   ensures[C17] no_secret_leak: secrets_clean
 //@   -- an account is only confirmed on the strength of a token that decodes to exactly
 //@   -- 64 bytes whose first half selects the account and whose second half hashes to
 //@   -- the stored verifier
@@ -46,7 +47,8 @@ package confirm
 //@   ensures[C18] no_panic: !panics
 //@
 //@ func (*Confirm).StartConfirmation
-//@   property C05 C19
+//@   property C05 C19 C17
+//@   ensures[C17] no_secret_leak: secrets_clean
 //@   -- (re)starting confirmation stores fresh selector/verifier and marks the account unconfirmed
 //@   ensures[C05,C19] fresh_pair: each Store.Save(?s) -> _ => !Confirmed(s) &&
 //@       (emits Rand.Read(?raw) -> ?re :: re == nil && len(raw) == 64 &&
